@@ -19,10 +19,18 @@ func vStat(path string) int {
 	return 0
 }
 
-// vUserLookup knows root only.
+// vUserLookup: a small user/group database in which user and group numbers coincide but the
+// names do not (uid 1000 alice / gid 1000 staff, uid 33 www-data / gid 33 www), plus root.
 func vUserLookup(name string, byID, group bool) (string, string, bool) {
-	if (!byID && name == "root") || (byID && name == "0") {
-		return "0", "root", true
+	type ent struct{ id, user, grp string }
+	for _, e := range []ent{{"0", "root", "root"}, {"1000", "alice", "staff"}, {"33", "www-data", "www"}} {
+		n := e.user
+		if group {
+			n = e.grp
+		}
+		if (byID && name == e.id) || (!byID && name == n) {
+			return e.id, n, true
+		}
 	}
 	return "", "", false
 }
